@@ -102,18 +102,30 @@ DMatch(rs, p) == Dfs(rs, <<>>, Segments(p), {})
                                      no alternative is a prefix of another
      optlit   (text)?                unnamed optional group, LAST token only, text starts with "/"
      optrest  (/REST)?$              unnamed optional group "/" + any text (REST = dot star) + end anchor, LAST token only
+     optndig  (?:text(?P<name>\d+))?      optnseg  (?:text(?P<name>[^/]+))?     a named group inside an optional
+     optcdig  (text(?P<name>\d+))?        optcseg  (text(?P<name>[^/]+))?       non-capturing / capturing group;
+                                     s = text "|" name, text starts with "/".  The optional group takes part if
+                                     it can AND the rest of the pattern then matches (greedy, with backtracking to
+                                     "skipped").  A named group that did not take part still arrives as a keyword
+                                     argument: its value is NONE (Python: None).
    A run group (digits / seg / udigits / useg) is followed by the end of the pattern, by a literal starting
    with "/" or by a trailing optional token, so greedy matching needs no backtracking (WellFormedSink). *)
 BAR == 124
 RunKinds == {"digits", "seg", "udigits", "useg"}
 NamedKinds == {"digits", "seg"}
 OptKinds == {"optlit", "optrest"}
+OptNamedKinds == {"optndig", "optnseg", "optcdig", "optcseg"}
+NONE == <<-1>>                       \* the value of a named group that did not take part in the match
+OptText(tok) == SplitOn(tok.s, BAR)[1]
+OptName(tok) == SplitOn(tok.s, BAR)[2]
 WellFormedSink(pat) ==
     \A i \in 1..Len(pat) :
         /\ pat[i].k \in OptKinds => (i = Len(pat) /\ (pat[i].k = "optrest" \/ (pat[i].s # <<>> /\ Head(pat[i].s) = SLASH)))
-        /\ (pat[i].k \in RunKinds /\ i < Len(pat)) =>
-               \/ pat[i + 1].k \in OptKinds
+        /\ ((pat[i].k \in RunKinds \cup OptNamedKinds) /\ i < Len(pat)) =>
+               \/ pat[i + 1].k \in OptKinds \cup OptNamedKinds
                \/ (pat[i + 1].k = "lit" /\ pat[i + 1].s # <<>> /\ Head(pat[i + 1].s) = SLASH)
+        /\ pat[i].k \in OptNamedKinds => /\ Len(SplitOn(pat[i].s, BAR)) = 2
+                                          /\ OptText(pat[i]) # <<>> /\ Head(OptText(pat[i])) = SLASH /\ OptName(pat[i]) # <<>>
         /\ pat[i].k = "ualt" => LET A == SplitOn(pat[i].s, BAR)
                                 IN  \A x \in 1..Len(A), y \in 1..Len(A) : x # y => ~IsPrefix(A[x], A[y])
 
@@ -142,11 +154,21 @@ SinkFrom(pat, p, i, kw) ==           \* i: 0-based offset into p
                     SinkFrom(Tail(pat), p, IF IsAt(p, tok.s, i) THEN i + Len(tok.s) ELSE i, kw)
                [] tok.k = "optrest" ->
                     (IF i = Len(p) \/ p[i + 1] = SLASH THEN SinkFrom(Tail(pat), p, Len(p), kw) ELSE NoSink)
+               [] tok.k \in OptNamedKinds ->
+                    LET lit  == OptText(tok)
+                        j    == i + Len(lit)
+                        r    == IF IsAt(p, lit, i) THEN RunLen(p, j + 1, tok.k \in {"optndig", "optcdig"}) ELSE 0
+                        with == IF r = 0 THEN NoSink
+                                ELSE SinkFrom(Tail(pat), p, j + r, kw \cup {[n |-> OptName(tok), v |-> Slice(p, j, j + r)]})
+                    IN  IF with.found THEN with
+                        ELSE SinkFrom(Tail(pat), p, i, kw \cup {[n |-> OptName(tok), v |-> NONE]})
 SinkMatch(pat, p) == SinkFrom(pat, p, 0, {})
 GroupNames(pat) == {pat[i].s : i \in {j \in 1..Len(pat) : pat[j].k \in NamedKinds}}
+                   \cup {OptName(pat[i]) : i \in {j \in 1..Len(pat) : pat[j].k \in OptNamedKinds}}
 
 (* static routes: the prefix is completed with "/" and compared as text; with a fallback file the
-   bare prefix matches too *)
+   bare prefix matches too.  `prefix` is the prefix WITHOUT a trailing "/": whether the application wrote
+   "/a" or "/a/" makes no difference (the spelling is kept in the assembly call only, for the replay) *)
 StaticMatch(s, p) == IsPrefix(s.prefix \o <<SLASH>>, p) \/ (s.fb /\ p = s.prefix)
 Remainder(s, p) == Drop(p, Len(s.prefix) + 1)
 (* what a static route that was picked does with the remainder (observation function only; C16 owns
@@ -220,7 +242,7 @@ Visible(m, p) == VisibleOf(m, p, Outcome(m, p))
 (* assembly *)
 Call(op, ok, id, tmpl, sfx, plain, sfxm, pat, prefix, fb) ==
     [op |-> op, ok |-> ok, id |-> id, tmpl |-> tmpl, sfx |-> sfx, plain |-> plain, sfxm |-> sfxm,
-     pat |-> pat, prefix |-> prefix, fb |-> fb]
+     pat |-> pat, prefix |-> prefix, fb |-> fb, sl |-> FALSE]
 
 Init == /\ routes = {} /\ sinks = <<>> /\ statics = <<>> /\ sbs \in BOOLEAN /\ n = 0
         /\ last = Call("init", TRUE, 0, <<>>, "", {}, {}, <<>>, <<>>, FALSE)
@@ -259,16 +281,18 @@ AddSink(pat) ==
     /\ last' = Call("sink", TRUE, n + 1, <<>>, "", {}, {}, pat, <<>>, FALSE)
     /\ UNCHANGED <<routes, statics, sbs>>
 
-AddStatic(prefix, fb) ==
+(* add_static_route(prefix or prefix + "/", dir [, fallback_filename]); sl: written with a trailing slash *)
+AddStaticSpelled(prefix, fb, sl) ==
     /\ n < MaxCalls
     /\ statics' = Put(statics, [id |-> n + 1, prefix |-> prefix, fb |-> fb])
     /\ n' = n + 1
-    /\ last' = Call("static", TRUE, n + 1, <<>>, "", {}, {}, <<>>, prefix, fb)
+    /\ last' = [Call("static", TRUE, n + 1, <<>>, "", {}, {}, <<>>, prefix, fb) EXCEPT !.sl = sl]
     /\ UNCHANGED <<routes, sinks, sbs>>
+AddStatic(prefix, fb) == AddStaticSpelled(prefix, fb, FALSE)
 
 Next == \/ \E t \in Templates, k \in ResKinds, s \in {"", "s"} : AddRoute(t, k, s) \/ AddRouteRejected(t, k, s)
         \/ \E pat \in SinkPats : AddSink(pat)
-        \/ \E pre \in StaticPrefixes, fb \in BOOLEAN : AddStatic(pre, fb)
+        \/ \E pre \in StaticPrefixes, fb \in BOOLEAN, sl \in BOOLEAN : AddStaticSpelled(pre, fb, sl)
 
 Spec == Init /\ [][Next]_vars
 
@@ -322,7 +346,7 @@ KwargsAreFields(m, c, o) ==
     /\ o.kind = "Sink" => \E i \in 1..Len(sinks) : /\ sinks[i].id = o.id
                                                    /\ {x.n : x \in o.kw} = GroupNames(sinks[i].pat)     \* the named groups, all of them,
                                                    /\ Cardinality(o.kw) = Cardinality(GroupNames(sinks[i].pat))   \* one value each,
-                                                   /\ \A x \in o.kw : x.v # <<>> /\ Occurs(c.p, x.v)     \* a non-empty piece of the path
+                                                   /\ \A x \in o.kw : x.v = NONE \/ (x.v # <<>> /\ Occurs(c.p, x.v))   \* a non-empty piece of the path, or NONE
     /\ o.kind \notin {"Responder", "Sink"} => o.kw = {}
 
 (* HTTP requests with the WEBSOCKET pseudo-method are refused before routing *)
